@@ -47,6 +47,12 @@ def render(name, s, e, nlook, shape=None):
         # the other thread's whole call falls inside ours: A.START B.START B.END A.END
         evs = [E.ev(name, 1, s), E.ev(name, 1, s, tid=2), E.ev(name, 2, (0x9a, 0x9b9b, 0x9c9c, 0x9d9d), tid=2)] + mid + [E.ev(name, 2, e)]
         judged = len(evs) - 1
+    if shape == 'tables-name-the-words':
+        # the parser's thread / process tables know every word of the END record as a thread id and as a process id (with names that
+        # look like results): the result part is a function of the END record alone
+        from pykdebugparser.traces_parser import TracesParser
+        words = [w for w in e if w] + [1]
+        p = TracesParser(E.codes(), {w: w for w in words}, {w: 'errno: EPERM(1)' if i % 2 else 'count: 7' for i, w in enumerate(words)})
     if shape == 'brace-path':
         from mc import build as B
         evs = evs[:1] + [E.ev('VFS_LOOKUP', q, data=d) for d, q in B.lookup_chunks(0x70, BRACE_PATH)] * 2 + evs[-1:]
@@ -106,6 +112,45 @@ def render(name, s, e, nlook, shape=None):
     return E.stable_str(out[0])
 
 
+SW = ['show_timestamp', 'show_name', 'show_func_qual', 'show_tid', 'show_process', 'show_args']
+
+
+def judge_listing_switches(name, acc):
+    """the call through the trace listing of a dump file under all 2^6 display switches (colour off): the one line always ends with
+    the result part that str(trace) shows (no switch removes or rewrites the result)."""
+    import io
+    from mc import build as B
+    from pykdebugparser.pykdebugparser import PyKdebugParser
+    bad = []
+    s, _ = D.in_domain(name, 'se', STARTS[0], (0, 0, 0, 0), 1)
+    for e in ((2, 0x55, 0x66, 0x77), (0, 0x55, 0x66, 0x77), (9999, 0, 0, 0)):
+        try:
+            plain = render(name, s, e, 0)
+        except Exception:
+            continue
+        sc = split_call(plain) if plain else None
+        if sc is None:
+            continue
+        rest = sc[2]
+        blob = B.v2([(1, 10, 'p')], 0, [B.rec(5, s, 1, E.n2i(name) | 1), B.rec(6, e, 1, E.n2i(name) | 2)])
+        for cfg in itertools.product((False, True), repeat=6):
+            f = PyKdebugParser()
+            f.color = False
+            for k, v in zip(SW, cfg):
+                setattr(f, k, v)
+            try:
+                lines = [E.stable_str(x) if not isinstance(x, str) else x for x in f.formatted_traces(io.BytesIO(blob), dict(E.codes()))]
+            except Exception as ex:
+                bad.append((f'listing-raised:{type(ex).__name__}@{name}', {'decoder': name, 'shape': 'listing-switches', 'end': [hex(x) for x in e]}, {'error': repr(ex)[:200]}))
+                break
+            acc.case(nontrivial=True, transitions=2)
+            if len(lines) != 1 or not lines[0].endswith(rest):
+                bad.append((f'result-part-differs-under-display-switches@{name}', {'decoder': name, 'shape': 'listing-switches', 'end': [hex(x) for x in e]},
+                            {'switches': dict(zip(SW, cfg)), 'lines': lines[:2], 'result_part': rest}))
+                break
+    return bad
+
+
 def judge_decoder(name, starts, nlooks, acc, full=True):
     """all END tuples for one decoder (full=False: the START tuples after the first one meet a reduced set of error words);
     returns list of (sig, case, detail)"""
@@ -131,7 +176,7 @@ def judge_decoder(name, starts, nlooks, acc, full=True):
             for err in (ERRS if (full or si == 0) and not ood else (0, 2, 9999, M64)):
                 for ret in RETS:
                     for tail in TAILS:
-                      for shape in ((None, 'long', 'crossing', 'enclosing', 'odd-timestamps', 'other-open-inside', 'other-open-before', 'same-thread-crossing', 'start-without-end-after', 'with-related-records', 'nested-then-orphan-end', 'brace-path') if (err in (0, 2, 9999) and ret in (0x55, M64) and tail == TAILS[1] and si == 0) else (None,)):
+                      for shape in ((None, 'long', 'crossing', 'enclosing', 'odd-timestamps', 'other-open-inside', 'other-open-before', 'same-thread-crossing', 'start-without-end-after', 'with-related-records', 'nested-then-orphan-end', 'brace-path', 'tables-name-the-words') if (err in (0, 2, 9999) and ret in (0x55, M64) and tail == TAILS[1] and si == 0) else (None,)):
                         if shape == 'brace-path' and name == 'BSC_fsgetpath':
                             continue       # its result part quotes the looked-up path (the documented leniency): nothing to compare with
                         e = (err, ret) + tail
@@ -230,11 +275,15 @@ class C10(Check):
         for name in desc[1]:
             for sig, case, detail in judge_decoder(name, starts, nlooks, acc, full=self.tier != 'quick'):
                 acc.violation(sig, case, detail)
+            for sig, case, detail in judge_listing_switches(name, acc):
+                acc.violation(sig, case, detail)
 
     def replay(self, case):
         name = case['decoder']
         acc_dummy = type('A', (), {'case': lambda *a, **k: None, 'count': lambda *a, **k: None, 'want_sample': lambda s: False,
                                    'sample': lambda *a: None})()
+        if case.get('shape') == 'listing-switches':
+            return [(sig, detail) for sig, c, detail in judge_listing_switches(name, acc_dummy)][:5]
         bad = judge_decoder(name, STARTS + ['OUT-OF-TABLE'], [0, 6], acc_dummy)
         return [(sig, detail) for sig, c, detail in bad][:5]
 
